@@ -91,3 +91,19 @@ Proof.
     + rewrite rev_length, N. unfold zlen. rewrite app_length. cbn [List.length]. lia.
   - rewrite N. unfold zlen. rewrite !app_length. cbn [List.length]. reflexivity.
 Qed.
+
+(* ---- WRITE ---- *)
+Lemma step_write v mid m r rr instr k0 k1 k2 a0 a1 a2 :
+  at_ip v r mid instr ->
+  decode instr = {| f_op := WRITE; f_k0 := k0; f_k1 := k1; f_k2 := k2; f_a0 := a0; f_a1 := a1; f_a2 := a2 |} ->
+  step (St v mid m) r rr =
+  lift (p0 <~ fetch (St v mid m) mid k0 a0 ;; let (v0, x0) := p0 in
+        v1 <~ vPush (write_out v0 (to_string fmt_float x0)) mid VNil ;; Good (next v1 r)).
+Proof.
+  intros [Hi Hc] Hd. unfold decode in Hd. injection Hd as Eop E0 E1 E2 Ea0 Ea1 Ea2.
+  unfold step. change (v_cs (St v mid m)) with (v_cs v). rewrite Hi. cbn [req obind].
+  rewrite cur_mid_St, Hc. cbn [obind]. rewrite Eop, E0, Ea0. reflexivity.
+Qed.
+
+Lemma write_out_St v mid m s : write_out (St v mid m) s = St (write_out v s) mid m.
+Proof. reflexivity. Qed.
